@@ -58,10 +58,28 @@ def worker(pid, tier, seed, shard, nshards, outpath):
     if hasattr(mod, "setup"):
         mod.setup()
     tmo = getattr(mod, "CASE_TIMEOUT", {"quick": 120, "thorough": 600})[tier]
+    import fcntl
+    counter = os.path.join(os.path.dirname(outpath), "counter")
+
+    def next_index():
+        # dynamic load balancing: fetch-and-increment under an exclusive file lock
+        fd = os.open(counter, os.O_RDWR | os.O_CREAT)
+        try:
+            fcntl.flock(fd, fcntl.LOCK_EX)
+            raw = os.read(fd, 32)
+            v = int(raw) if raw.strip() else 0
+            os.lseek(fd, 0, 0)
+            os.write(fd, b"%d" % (v + 1))
+            return v
+        finally:
+            os.close(fd)
+
     with open(outpath, "w") as out:
-        for i, case in enumerate(cases):
-            if i % nshards != shard:
-                continue
+        while True:
+            i = next_index()
+            if i >= len(cases):
+                break
+            case = cases[i]
             t0 = time.time()
             try:
                 with engine.alarm(tmo):
@@ -247,8 +265,9 @@ def main(argv):
     coverage["verdict"] = verdict
     ev = dict(property_id=pid, tier=tier, seed=seed, level=getattr(mod, "LEVEL", "exploration"), coverage=coverage,
               assumptions=list(getattr(mod, "ASSUMPTIONS", [])), wall_s=round(wall, 2), violations=len(unknown))
-    os.makedirs(os.path.join(VERIF, "evidence"), exist_ok=True)
-    evp = os.path.join(VERIF, "evidence", pid + ".json")
+    evdir = os.path.join(VERIF, ".work", "evidence-scratch") if os.environ.get("VERIF_NOEVIDENCE") else os.path.join(VERIF, "evidence")
+    os.makedirs(evdir, exist_ok=True)
+    evp = os.path.join(evdir, pid + ".json")
     tmp = evp + ".tmp%d" % os.getpid()
     json.dump(ev, open(tmp, "w"), indent=1, sort_keys=False)
     os.replace(tmp, evp)
